@@ -387,9 +387,10 @@ class Printer:
         if k == "call":
             return f"{x(e[1], 10)}(" + ", ".join(x(a) for a in e[2]) + ")"
         if k == "pipe":
-            # a -> f b  (written with explicit call parens for the extra args)
-            s = f"{x(e[1], 10)} -> {x(e[2], 10)}" + ("(" + ", ".join(x(a) for a in e[3]) + ")" if e[3] else "")
-            return f"({s})"
+            # a -> f b, c   (paren-free call form, as in the guide; statement level only)
+            if prec > 0:
+                raise ValueError("pipe in operand position")
+            return f"{x(e[1], 10)} -> {x(e[2], 10)}" + (" " + ", ".join(x(a, 1) for a in e[3]) if e[3] else "")
         if k == "print":
             return f"print({x(e[1])})"
         if k == "size":
@@ -872,4 +873,329 @@ class Gen:
         for m in self.vars["map"]:
             obs.append(("size", ("id", m)))
         stmts.append(("tuple", obs[:24]) if len(obs) != 1 else ("tuple", obs + [("null",)]))
+        return ("block", stmts)
+
+
+# ------------------------------------------------------------ profile: functions
+class FnGen(Gen):
+    """programs about function definitions, argument binding, closures, pipes"""
+
+    def param_list(self):
+        """returns (params, variadic, arity_min, arity_max, names)"""
+        n = self.r.below(4)
+        params = []
+        names = []
+        seen_default = False
+        for i in range(n):
+            c = self.r.below(10)
+            if c < 5 and not seen_default:
+                p = self.fresh("int")
+                params.append((("tid", p, None), None))
+                names.append(p)
+            elif c < 7 and not seen_default:
+                a, b = self.fresh("int"), self.fresh("int")
+                params.append((("ttuple", [("tid", a, None), ("tid", b, None)]), None))
+                names += [a, b]
+            elif c < 8 and not seen_default:
+                params.append((("twild",), None))
+            else:
+                p = self.fresh("int")
+                seen_default = True
+                params.append((("tid", p, None), self.pick([("int", self.r.below(9)), ("bin", "+", ("int", 1), ("int", self.r.below(5)))])))
+                names.append(p)
+        variadic = None
+        if self.chance(1, 4):
+            variadic = self.fresh("tuple")
+        required = len([p for p in params if p[1] is None])
+        return params, variadic, required, len(params), names
+
+    def fn_stmt(self, d):
+        c = self.r.below(12)
+        if c < 4:
+            f = self.fresh("fn")
+            params, variadic, lo, hi, names = self.param_list()
+            saved = {k: list(v) for k, v in self.vars.items()}
+            for nme in names:
+                self.declare(nme, "any")
+            ints = [("id", n) for n in names] or [("int", 1)]
+            cap = [("id", v) for v in saved["int"][:2]]
+            parts = ints + cap
+            body_val = ("tuple", parts) if self.chance(1, 2) else self.pick(parts)
+            if variadic is not None:
+                body_val = ("tuple", [body_val, ("size", ("id", variadic)), ("id", variadic)])
+            body = ("block", [body_val])
+            self.vars = saved
+            self.fns = getattr(self, "fns", []) + [(f, (lo, hi, variadic is not None, params))]
+            return ("assign", f, None, ("fn", params, variadic, None, body))
+        if c < 8 and getattr(self, "fns", []):
+            f, (lo, hi, var, params) = self.pick(self.fns)
+            k = self.r.below(12)
+            if k < 8:
+                n = lo + self.r.below(hi - lo + 1 + (2 if var else 0))
+            elif k < 10:
+                n = max(0, lo - 1)
+            else:
+                n = hi + 1
+            args = []
+            for i in range(n):
+                if i < len(params) and params[i][0][0] == "ttuple":
+                    args.append(self.pick([("tuple", [("int", i), ("int", i + 10)]), ("list", [("int", 7)]),
+                                           ("tuple", [("int", 1), ("int", 2), ("int", 3)]), ("int", 5)]))
+                else:
+                    args.append(("int", 20 + i) if self.chance(2, 3) else self.int_expr(1))
+            res = self.fresh("any")
+            self.declare(res, "any")
+            call = ("call", ("id", f), args)
+            if args and self.chance(1, 5):
+                call = ("pipe", args[0], ("id", f), args[1:])
+            return ("assign", res, None, call)
+        if c == 8:
+            # capture by copy
+            x, f, r1 = self.fresh("int"), self.fresh("fn"), self.fresh("any")
+            self.declare(x, "int")
+            self.declare(r1, "any")
+            return ("block", [("assign", x, None, ("int", self.r.below(9))),
+                              ("assign", f, None, ("fn", [], None, None, ("block", [("bin", "*", ("id", x), ("int", 2))]))),
+                              ("assign", x, None, ("int", 100)),
+                              ("assign", r1, None, ("call", ("id", f), []))])
+        if c == 9:
+            # a list reached through a capture stays shared
+            l, f, r1 = self.fresh("list"), self.fresh("fn"), self.fresh("any")
+            p = self.fresh("int")
+            self.declare(l, "list")
+            self.declare(r1, "any")
+            return ("block", [("assign", l, None, ("list", [("int", 1)])),
+                              ("assign", f, None, ("fn", [(("tid", p, None), None)], None, None,
+                                                   ("block", [("push", ("id", l), ("id", p)), ("size", ("id", l))]))),
+                              ("call", ("id", f), [("int", 5)]),
+                              ("assign", r1, None, ("call", ("id", f), [("int", 6)]))])
+        if c == 10:
+            # recursion
+            f, n, r1 = self.fresh("fn"), self.fresh("int"), self.fresh("any")
+            self.declare(r1, "any")
+            body = ("block", [("if", [(("cmp", ("id", n), [("<=", ("int", 1))]), ("block", [("int", 1)]))],
+                               ("block", [("bin", "*", ("id", n), ("call", ("id", f), [("bin", "-", ("id", n), ("int", 1))]))]))])
+            return ("block", [("assign", f, None, ("fn", [(("tid", n, None), None)], None, None, body)),
+                              ("assign", r1, None, ("call", ("id", f), [("int", 1 + self.r.below(6))]))])
+        if c == 11:
+            # closure factory; default value evaluated once
+            mk, a, g, r1, b2 = self.fresh("fn"), self.fresh("int"), self.fresh("fn"), self.fresh("any"), self.fresh("int")
+            self.declare(r1, "any")
+            inner = ("fn", [(("tid", b2, None), None)], None, None, ("block", [("bin", "+", ("id", a), ("id", b2))]))
+            return ("block", [("assign", mk, None, ("fn", [(("tid", a, None), None)], None, None, ("block", [inner]))),
+                              ("assign", g, None, ("call", ("id", mk), [("int", self.r.below(9))])),
+                              ("assign", r1, None, ("tuple", [("call", ("id", g), [("int", 1)]), ("call", ("id", g), [("int", 2)])]))])
+        return self.stmt(d)
+
+    def program(self, size, depth):
+        stmts = []
+        for _ in range(size):
+            stmts.append(self.fn_stmt(depth) if self.chance(3, 4) else self.stmt(depth))
+        obs = [("id", v) for kind in ("int", "bool", "str", "tuple", "list", "any") for v in self.vars[kind]]
+        stmts.append(("tuple", obs[:24] + [("null",)]))
+        return ("block", stmts)
+
+
+# ------------------------------------------------------------ profile: match
+class MatchGen(Gen):
+    SUBJECTS = [("int", 0), ("int", 1), ("int", 42), ("null",), ("bool", True), ("str", "a"), ("str", "abc"),
+                ("tuple", []), ("tuple", [("int", 1)]), ("tuple", [("int", 1), ("int", 2)]),
+                ("tuple", [("int", 1), ("int", 2), ("int", 3)]), ("tuple", [("str", "a"), ("int", 2), ("null",), ("int", 4)]),
+                ("list", []), ("list", [("int", 1), ("int", 2)]), ("list", [("int", 0), ("tuple", [("int", 1), ("int", 2)])]),
+                ("tuple", [("tuple", [("int", 1), ("int", 2)]), ("int", 3)]),
+                ("map", [("k0", ("int", 1))]), ("map", [("k0", ("int", 1)), ("k1", ("int", 2))]), ("map", [])]
+
+    def pat(self, d, binds):
+        c = self.r.below(16)
+        if c < 3:
+            return ("pint", self.pick([0, 1, 2, 42]))
+        if c == 3:
+            return ("pwild",)
+        if c < 6:
+            x = self.fresh("any")
+            binds.append(x)
+            hint = self.pick([None, None, None, ("Number", False), ("String", False), ("Tuple", False), ("Any", False), ("Number", True)])
+            return ("pid", x, hint)
+        if c == 6:
+            return ("pstr", self.pick(["a", "abc"]))
+        if c == 7:
+            return self.pick([("pnull",), ("pbool", True)])
+        if c < 11 and d > 0:
+            n = 1 + self.r.below(3)      # `()` in a pattern is not an empty-tuple pattern: never generated
+            return ("ptuple", [self.pat(d - 1, binds) for _ in range(n)])
+        if c < 13 and d > 0:
+            before = [self.pat(d - 1, binds) for _ in range(self.r.below(3))]
+            after = [self.pat(d - 1, binds) for _ in range(self.r.below(2))] if not before or self.chance(1, 2) else []
+            if before and after:
+                after = []      # one ellipsis, at the start or at the end
+            rest = None
+            if self.chance(1, 2):
+                rest = self.fresh("any")
+                binds.append(rest)
+            if not before and not after:
+                before = [self.pat(0, binds)]
+            return ("prest", before, rest, after)
+        if c == 13 and d > 0:
+            keys = ["k0", "k1", "k2"][: 1 + self.r.below(2)]
+            out = []
+            for k in keys:
+                x = self.fresh("any")
+                binds.append(x)
+                out.append((k, x))
+            return ("pmap", out)
+        return ("pwild",)
+
+    def match_expr(self, subject):
+        arms = []
+        for i in range(1 + self.r.below(4)):
+            binds = []
+            alts = [[self.pat(2, binds)]]
+            if self.chance(1, 6):
+                alts.append([self.pick([("pint", 42), ("pnull",), ("ptuple", [("pwild",)]), ("pstr", "a")])])
+                binds = []          # bindings differ between alternatives: do not observe them
+                alts = [[strip_binds(a[0])] for a in alts]
+            guard = None
+            if binds and self.chance(1, 4):
+                guard = ("cmp", ("id", binds[0]), [("!=", ("int", 1))])
+            body = ("block", [("tuple", [("int", 100 + i)] + [("id", b) for b in binds])])
+            arms.append((alts, guard, body))
+        els = ("block", [("int", -1)]) if self.chance(1, 3) else None
+        return ("match", [subject], arms, els)
+
+    def program(self, size, depth):
+        stmts = []
+        results = []
+        for _ in range(size):
+            s = self.fresh("any")
+            stmts.append(("assign", s, None, self.pick(self.SUBJECTS)))
+            r = self.fresh("any")
+            stmts.append(("assign", r, None, self.match_expr(("id", s))))
+            results.append(("id", r))
+            if self.chance(1, 4):
+                # unpacking assignment from any iterable
+                a, b, c2 = self.fresh("any"), self.fresh("any"), self.fresh("any")
+                tg = self.pick([[("tid", a, None), ("tid", b, None)], [("tid", a, None), ("twild",), ("tid", b, None)],
+                                [("tid", a, None), ("tid", b, None), ("tid", c2, None)]])
+                src = self.pick([("tuple", [("int", 1), ("int", 2), ("int", 3)]), ("list", [("int", 9)]),
+                                 ("tuple", [("int", 1), ("tuple", [("int", 5), ("int", 6)])]), ("range", ("int", 0), ("int", 3), False),
+                                 ("str", "xy"), ("tuple", [])])
+                stmts.append(("multi", tg, src))
+                results += [("id", t[1]) for t in flatten_targets(tg)]
+        stmts.append(("tuple", results[:24] + [("null",)]))
+        return ("block", stmts)
+
+
+def flatten_targets(ts):
+    out = []
+    for t in ts:
+        if t[0] == "tid":
+            out.append(t)
+        elif t[0] == "ttuple":
+            out += flatten_targets(t[1])
+    return out
+
+
+def strip_binds(p):
+    k = p[0]
+    if k == "pid":
+        return ("pwild",)
+    if k == "ptuple":
+        return ("ptuple", [strip_binds(x) for x in p[1]])
+    if k == "prest":
+        return ("prest", [strip_binds(x) for x in p[1]], None, [strip_binds(x) for x in p[3]])
+    if k == "pmap":
+        return ("pwild",)
+    return p
+
+
+# ------------------------------------------------------------ profile: errors
+class TryGen(Gen):
+    """faults planted under nestings of try/catch/finally and function calls"""
+
+    def fault(self):
+        """a faulting statement; non-throw faults are put where their value is used
+        (an unused pure operation need not be evaluated at all)"""
+        c = self.r.below(8)
+        if c < 3:
+            return ("throw", ("str", self.pick(["boom", "e1", "x y"])))
+        sink = self.fresh("any")
+        if c == 3:
+            f = ("bin", "+", ("int", 1), ("bool", True))            # EBinaryOp
+        elif c == 4:
+            f = ("index", ("list", [("int", 1)]), ("int", 5))        # index error
+        elif c == 5:
+            f = ("neg", ("str", "a"))                               # not negatable
+        elif c == 6:
+            f = ("index", ("tuple", [("int", 1)]), ("int", 3))
+        else:
+            return ("throw", ("str", "t"))
+        return ("assign", sink, None, f)
+
+    def maybe_fault(self, p_num, p_den):
+        return self.fault() if self.chance(p_num, p_den) else ("print", ("str", self.pick(["ok", "fine", "."])))
+
+    def try_block(self, d, marks):
+        m = len(marks)
+        marks.append(m)
+        body = [("print", ("int", 1000 + m))]
+        if d > 0 and self.chance(1, 2):
+            body.append(self.try_stmt(d - 1, marks))
+        body.append(self.maybe_fault(2, 3))
+        body.append(("print", ("int", 2000 + m)))
+        body.append(("int", 10 + m))
+        catches = []
+        if self.chance(4, 5):
+            if self.chance(1, 4):
+                catches.append((None, ("Number", False), ("block", [("print", ("int", 2500 + m)), ("int", 25 + m)])))
+            e = self.fresh("any")
+            thrower = any(s[0] == "throw" for s in body)
+            cbody = [("print", ("int", 3000 + m))]
+            if d > 0 and self.chance(1, 4):
+                cbody.append(self.maybe_fault(1, 2))
+            cbody.append(("int", 30 + m))
+            catches.append(((e if thrower and self.chance(1, 2) else None), None, ("block", cbody)))
+        if not catches:     # a catch block is mandatory
+            catches.append((None, None, ("block", [("print", ("int", 3500 + m)), ("int", 35 + m)])))
+        fin = None
+        if self.chance(1, 2):
+            fin = ("block", [("print", ("int", 4000 + m)), ("int", 40 + m)])
+        return ("try", ("block", body), catches, fin)
+
+    def try_stmt(self, d, marks):
+        r = self.fresh("any")
+        c = self.r.below(6)
+        t = self.try_block(d, marks)
+        if c == 5:
+            return t
+        self.declare(r, "any")
+        # r is read at the end of the program even when the assignment below is abandoned by an
+        # error: give it a value first (reading a never-assigned local is not defined by the guide)
+        init = ("assign", r, None, ("null",))
+        if c < 3:
+            return ("block", [init, ("assign", r, None, t)])
+        if c == 3:
+            # the fault is raised inside a called function
+            f = self.fresh("fn")
+            inner = ("fn", [], None, None, ("block", [("print", ("int", 5000 + len(marks))), self.maybe_fault(3, 4), ("int", 7)]))
+            return ("block", [init, ("assign", f, None, inner),
+                              ("assign", r, None, ("try", ("block", [("bin", "+", ("call", ("id", f), []), ("int", 1))]),
+                                                   [(None, None, ("block", [("print", ("int", 5500 + len(marks))), ("int", -5)]))],
+                                                   ("block", [("print", ("int", 5600 + len(marks))), ("int", 56)]) if self.chance(1, 2) else None))])
+        if c == 4:
+            # a function whose body is a try; state before the throw is kept
+            f = self.fresh("fn")
+            l = self.fresh("list")
+            self.declare(l, "list")
+            return ("block", [init, ("assign", l, None, ("list", [])),
+                              ("assign", f, None, ("fn", [], None, None, ("block", [t]))),
+                              ("assign", r, None, ("try", ("block", [("push", ("id", l), ("int", 1)), ("call", ("id", f), []),
+                                                                     self.maybe_fault(1, 2), ("push", ("id", l), ("int", 2)), ("int", 3)]),
+                                                   [(None, None, ("block", [("int", -3)]))], None))])
+        return t
+
+    def program(self, size, depth):
+        marks = []
+        stmts = [self.try_stmt(depth, marks) for _ in range(size)]
+        obs = [("id", v) for kind in ("any", "list") for v in self.vars[kind]]
+        stmts.append(("tuple", obs[:24] + [("null",)]))
         return ("block", stmts)
